@@ -22,7 +22,7 @@ first = rows(os.path.join(root, 'validation-logs/seed_matrix4.log'))
 first.update(rows(os.path.join(root, 'validation-logs/seed_matrix5.log')))
 final = rows(os.path.join(root, 'validation-logs/recheck_round3.log'))
 spurious_c10 = {'C02-E', 'C02-F', 'C03-E', 'C03-F', 'C04-E', 'C04-F', 'C05-E', 'C05-F'}
-spurious_other = {'C10-F': 'C14'}  # an alarm that 50 repetitions of the same run did not reproduce: see DESIGN.md section 17
+spurious_other = {'C10-F': 'C14'}  # the harness's own false alarm (badger transaction-size limit): see DESIGN.md section 17
 md = open(os.path.join(root, 'DETECTION.md')).read()
 md = md.split('\n## 3. ')[0].rstrip() + '\n'
 out = ['', '## 3. Changes seeded by sub-agents, round 3 (E, F)', '',
@@ -42,6 +42,47 @@ for name in sorted(first):
     s = fsig.get(t) or sig.get(t) or ''
     out.append('| %s | %s | %s | %s | %s | `%s` |' % (name, t, 'yes' if hit else '**no**', ' '.join(ids) or '**none**', fin, s[:80]))
 out += ['', 'Totals over %d changes: first pass - target check fired for %d, some check fired for %d; with the harness as it stands the target check fires for %d.' % (len(first), nt, na, nf),
-        '', 'The C10 column of the first eight rows of matrix 4 is left out: those runs used a harness snapshot that held the C10 operand regression (DESIGN.md section 17), so C10 "fired" on changes that cannot touch ordering; C10 was re-run for those rows with the repaired harness and is silent. One alarm of C14 in the row C10-F was not reproduced by 50 repetitions of the same run and is not counted (DESIGN.md section 17).', '']
+        '', 'The C10 column of the first eight rows of matrix 4 is left out: those runs used a harness snapshot that held the C10 operand regression (DESIGN.md section 17), so C10 "fired" on changes that cannot touch ordering; C10 was re-run for those rows with the repaired harness and is silent. One alarm of C14 in the row C10-F was the harness's own (an operation beyond badger's transaction-size limit, generated because cases were not yet pure functions of the seed; DESIGN.md section 17) and is not counted.', '']
 open(os.path.join(root, 'DETECTION.md'), 'w').write(md + "\n".join(out))
 print("\n".join(out[-4:]))
+
+# ---- section 4: round 4 (G, H)
+def rows4(path):
+    out = {}
+    if not os.path.exists(path):
+        return out
+    for l in open(path, errors='replace'):
+        m = re.match(r'^(C\d\d-[GH]): FIRED:(.*?) \| silent:(.*)$', l.strip())
+        if not m:
+            continue
+        ids, sig = [], {}
+        for pid, s_ in re.findall(r'(C\d\d)\(signature=([^)]*)\)?', m.group(2)):
+            if pid not in ids:
+                ids.append(pid)
+                sig[pid] = s_
+        out[m.group(1)] = (ids, sig)
+    return out
+first4 = rows4(os.path.join(root, 'validation-logs/seed_matrix6.log'))
+final4 = rows4(os.path.join(root, 'validation-logs/recheck_round4.log'))
+if first4:
+    out = ['', '## 4. Changes seeded by sub-agents, round 4 (G, H)', '',
+           'Twelve changes for C03 C06 C09 C14 C15 C16. `first pass` = harness frozen before the changes were looked at (`seed_matrix6.log`); `harness as it stands` = `recheck_round4.log`.', '',
+           '| change | target | first pass: target fired? | first pass: all checks that fired | harness as it stands: target | signature reported by the target check |', '|---|---|---|---|---|---|']
+    nt = nf = na = 0
+    for name in sorted(first4):
+        t = name[:3]
+        ids, sig = first4[name]
+        hit = t in ids
+        nt += hit
+        na += bool(ids)
+        fids, fsig = final4.get(name, ([], {}))
+        fin = 'fires' if t in fids else ('silent' if name in final4 else 'not re-run')
+        if name == 'C16-H':
+            fin += ' (the change only differs outside the supported domain: integers beyond 2^53 in an indexed field)'
+        nf += t in fids
+        s_ = fsig.get(t) or sig.get(t) or ''
+        out.append('| %s | %s | %s | %s | %s | `%s` |' % (name, t, 'yes' if hit else '**no**', ' '.join(ids) or '**none**', fin, s_[:80]))
+    out += ['', 'Totals over %d changes: first pass - target check fired for %d, some check fired for %d; with the harness as it stands the target check fires for %d.' % (len(first4), nt, na, nf), '']
+    md2 = open(os.path.join(root, 'DETECTION.md')).read().split('\n## 4. ')[0].rstrip() + '\n'
+    open(os.path.join(root, 'DETECTION.md'), 'w').write(md2 + "\n".join(out))
+    print("\n".join(out[-3:]))
